@@ -363,6 +363,43 @@ pub fn tx_monitors(h: &Hist, ms: &mut MonState, b: &Obs, line: &str, res: &str, 
             }
         }
     }
+    // C08: the recorded amount of a position changes (or the position disappears) only through an
+    // operation of its owner — directly on the farm manager, or through a deposit the owner makes on the
+    // pool manager
+    if ok {
+        for p in b.positions.iter() {
+            let after = a.positions.iter().find(|q| q.identifier == p.identifier);
+            let changed = match after { Some(q) => q.lp_asset.amount != p.lp_asset.amount || q.open != p.open || q.receiver != p.receiver, None => true };
+            if changed {
+                out.push(format!("mon_pos_changed {}", (h.w.n(p.receiver.as_str()) == tx.sender) as u8));
+            }
+        }
+        for q in a.positions.iter() {
+            if !b.positions.iter().any(|p| p.identifier == q.identifier) {
+                // new position: created by its owner, or by the pool manager for the depositor (= tx sender)
+                out.push(format!("mon_pos_created {} {}", (h.w.n(q.receiver.as_str()) == tx.sender) as u8, (tx.contract == "pm") as u8));
+            }
+        }
+    }
+    // C13: an executed constant-product swap (direct, or the first hop of a route) stays within the tolerance
+    if ok && tx.contract == "pm" && (tx.kind == "swap" || tx.kind == "route") && tx.funds.len() == 1 {
+        let (pid, ask_d, tol) = if tx.kind == "swap" { (tx.args[0].clone(), tx.args[1].clone(), tx.args[3].clone()) }
+            else { let n: usize = tx.args[0].parse().unwrap_or(0); (tx.args[3].clone(), tx.args[2].clone(), tx.args[1 + 3 * n + 2].clone()) };
+        let belief = if tx.kind == "swap" { tx.args[2].clone() } else { "-".to_string() };
+        if let (Some(pb), Some(pa)) = (pool(b, &pid), pool(a, &pid)) {
+            let single_visit = tx.kind == "swap" || { let n: usize = tx.args[0].parse().unwrap_or(0); (0..n).filter(|i| tx.args[3 + 3 * i] == pid).count() == 1 };
+            if matches!(pb.pool_type, PoolType::ConstantProduct) && single_visit && belief == "-" {
+                let offer_d = &tx.funds[0].0;
+                let (x, y) = (reserve(pb, offer_d), reserve(pb, &ask_d));
+                // what left the ask reserve = net + protocol + burn; swap/extra fees stay. net is recovered from the
+                // reserve delta and the fee shares only approximately, so use the attributes for direct swaps and the
+                // reserve delta (an upper bound on net) for route hops
+                let out_total = y.saturating_sub(reserve(pa, &ask_d));
+                let net = if tx.kind == "swap" { attr(h, "return_amount").unwrap_or(0) } else { out_total };
+                out.push(format!("mon_cp_slippage {} {} {} {} {} {}", tol, x, y, tx.funds[0].1, net, (tx.kind == "swap") as u8));
+            }
+        }
+    }
     if tx.contract == "fm" {
         if tx.kind == "claim" && tx.funds.is_empty() {
             let ua = h.w.astr(&tx.sender);
